@@ -907,6 +907,7 @@ func c20Fee(spec c20Spec, res *core.CaseResult, verbose bool) {
 		AppOpts: map[string]interface{}{"bypass-min-fee.msg-types": exempt, "bypass-min-fee.msg-max-gas-usage": allowance}})
 	minPrices, _ := sdk.ParseDecCoins(price)
 	fix.Fund(c, c.Users[0].Acc(), sdk.NewCoin("usdt", sdkmath.NewInt(1_000_000_000_000)))
+	fix.Fund(c, c.Users[0].Acc(), sdk.NewCoin("apple", sdkmath.NewInt(1_000_000_000_000))) // a coin the node quotes no price in
 	if _, err := c.Next(); err != nil {
 		res.Inconclusive = err.Error()
 		return
@@ -1007,7 +1008,7 @@ func c20Fee(spec c20Spec, res *core.CaseResult, verbose bool) {
 		}
 		// fee: none, just below, exactly, in the second denom only, both below
 		var fee sdk.Coins
-		feeKind := rng.IntN(6)
+		feeKind := rng.IntN(8)
 		switch scenario {
 		case 0, 1, 2, 3:
 			feeKind = 0
@@ -1030,6 +1031,13 @@ func c20Fee(spec c20Spec, res *core.CaseResult, verbose bool) {
 				if r.Amount.GT(sdkmath.OneInt()) {
 					fee = fee.Add(sdk.NewCoin(r.Denom, r.Amount.SubRaw(1)))
 				}
+			}
+		case feeKind == 6: // paid entirely in a coin the node has no price for
+			fee = sdk.NewCoins(sdk.NewCoin("apple", sdkmath.NewInt(int64(1+rng.IntN(1_000_000)))))
+		case feeKind == 7: // dust in the node's coin plus a coin it has no price for
+			fee = sdk.NewCoins(sdk.NewCoin("apple", required[0].Amount.AddRaw(1)))
+			if required[0].Amount.GT(sdkmath.OneInt()) {
+				fee = fee.Add(sdk.NewCoin(required[0].Denom, sdkmath.OneInt()))
 			}
 		default:
 			fee = sdk.NewCoins(sdk.NewCoin(required[0].Denom, required[0].Amount.MulRaw(2)))
